@@ -4,6 +4,8 @@ Every property here quantifies over inputs only ("for every matrix ..."), so a r
 an EARLIER call did - a module-level memo, a cached work array handed out without a copy, a function attribute or a
 mutable default argument used as a cache - breaks it for some call histories while every single call looks right.
 The obligation is discharged by the modular frame analysis of qv/effects.py on the real ASTs (re-read on every run):
+  (methods additionally: no attribute of self is assigned outside __init__ - a solver object carries configuration only, so a second
+  call on the same object sees the state of a fresh one)
   no_module_state(f):  f, and every repository function it may call, assigns no module global (by `global`, by
                        subscript / attribute / method mutation of a module-level object), assigns no attribute of a
                        function object, and has no mutable default argument that it mutates.
@@ -101,6 +103,13 @@ def no_module_state(rep, P, quals, replay=None):
                 bad.append({"function": r, "line": sr.node.lineno, "what": f"module-level state written: {sorted(w[1] for w in sr.writes if w[0] == 'global')}"})
         rep.add(Obligation(f"{P}.{fn}.frame.result_is_a_function_of_the_arguments", q, "all-shapes", smt.PROVED if not bad else smt.REFUTED, "effect-analysis", 0.0,
                            {"state_written": bad[:6]} if bad else None, replay=replay, kind="frame"))
+        if s.is_method:
+            bad_self = [{"line": line, "what": text} for root, line, text in s.write_sites if root == ("self",)]
+            if not bad_self and ("self",) in s.writes:
+                bad_self = [{"line": s.node.lineno, "what": "an attribute of self is written by a callee"}]
+            if s.node.name != "__init__":
+                rep.add(Obligation(f"{P}.{fn}.frame.solver_object_not_modified", q, "all-shapes", smt.PROVED if not bad_self else smt.REFUTED, "effect-analysis", 0.0,
+                                   {"self_written": bad_self[:6]} if bad_self else None, replay=replay, kind="frame"))
     rep.solver_secs += time.time() - t0
     if "qv/effects.py (frame analysis)" not in rep.trusted:
         rep.trusted.append("qv/effects.py (frame analysis)")
